@@ -381,6 +381,58 @@ struct Exec
                 ++made;
             }
         }
+        long family = plan.c("family", 0);
+        if (family != 0 && !models.empty()) {
+            // three of a kind in different branches of the first model: a component X and two copies of it below two other
+            // components; with family 2, X itself is then taken out of the model (an outsider with look-alikes inside)
+            std::vector<ComponentPtr> inFirst;
+            for (auto &c : comps) {
+                if (owningModelOf(c) == models[0]) {
+                    inFirst.push_back(c);
+                }
+            }
+            if (inFirst.size() >= 3) {
+                auto x = inFirst[r.below(inFirst.size())];
+                std::vector<ComponentPtr> hosts;
+                for (auto &c : inFirst) {
+                    if (c != x && !c->hasAncestor(x)) {
+                        hosts.push_back(c);
+                    }
+                }
+                if (hosts.size() >= 2) {
+                    size_t a = r.below(hosts.size()), b = (a + 1 + r.below(hosts.size() - 1)) % hosts.size();
+                    for (size_t host : {a, b}) {
+                        auto copy = x->clone();
+                        hosts[host]->addComponent(copy);
+                        std::vector<int> registered;
+                        std::string shared;
+                        registerTree(copy, 0, true, registered, shared);
+                    }
+                    if (family == 2) {
+                        auto holder = std::dynamic_pointer_cast<ComponentEntity>(x->parent());
+                        for (size_t i = 0; holder != nullptr && i < holder->componentCount(); ++i) {
+                            if (holder->component(i) == x) {
+                                holder->removeComponent(i);
+                                break;
+                            }
+                        }
+                    }
+                    ctx.count(family == 2 ? "family_of_lookalikes_with_outsider" : "family_of_lookalikes_in_scope");
+                }
+            }
+        }
+    }
+
+    static ModelPtr owningModelOf(const ComponentPtr &c)
+    {
+        ParentedEntityPtr p = c;
+        for (int hops = 0; p != nullptr && hops < 64; ++hops) {
+            if (auto m = std::dynamic_pointer_cast<Model>(p)) {
+                return m;
+            }
+            p = p->parent();
+        }
+        return nullptr;
     }
 
     // ------------------------------------------------------------ argument resolution
@@ -1851,6 +1903,14 @@ Plan generate(Rng &rng, const Opts &opts, uint64_t runIndex)
         }
     }
     long n = rng.range(10, 60);
+    if (p.c("lookalikes", 0) != 0 && opts.f("family", rng.chance(1, 4) ? 1 : 0) != 0) {
+        // a family of look-alikes in different branches, and a first call that searches the whole first model for one of them
+        p.cfg["family"] = opts.f("familykind", long(1 + rng.below(2)));
+        static const char *const searching[] = {"ComponentEntity.removeComponent#ptr", "ComponentEntity.replaceComponent#ptr", "ComponentEntity.containsComponent#ptr",
+                                                "ComponentEntity.removeComponent#name", "ComponentEntity.takeComponent#name", "ComponentEntity.replaceComponent#name",
+                                                "ComponentEntity.removeComponent#ptr", "ComponentEntity.replaceComponent#ptr"};
+        p.steps.push_back(mk(searching[rng.below(8)], {0, long(rng.below(8)), 0, B_GOOD, 16 | 1, p.c("family", 1) == 2 ? long(3 * rng.below(3)) : long(1 + 3 * rng.below(2))}));
+    }
     for (long i = 0; i < n; ++i) {
         unsigned r = unsigned(rng.below(100));
         if (eqstress && rng.chance(2, 3)) {
